@@ -185,7 +185,7 @@ theorem msg_verdict_refused (v : MsgVerdict) (hv : (∃ code, v = .reject code) 
       · right; rfl
       · left; rfl
   rw [route_refused _ c r _ hres]
-  exact h1.trans (untouched_acknowledge _ c r _)
+  exact (h1.trans (untouched_dupQuota _ c r dupl)).trans (untouched_acknowledge _ c r _)
 
 /-- … and the acknowledgement of a rejected PUBLISH carries the hook's code for a v5 client (success for v3, where
     the code cannot be expressed), the one of a dropped PUBLISH "no matching subscribers" -/
@@ -196,7 +196,7 @@ theorem msg_verdict_ack (b : B) (c : Cli) (s : Sess) (r : PubReq) (m : Msg) (cod
     publishPost .drop b c s r m =
       acknowledge (b.setSess (if r.qos == 2 then { s with unack := s.unack ++ [r.pid] } else s)) c r (if c.v == 5 then 0x10 else 0) := by
   constructor <;>
-  · simp only [publishPost, hnd]
+  · simp only [publishPost, hnd, dupQuota_false]
     simp [MsgVerdict.result, route, ackCode]
 
 /-- `msg_verdict`, rewritten: the broker behaves exactly as if the client had published the rewritten message
@@ -213,7 +213,7 @@ theorem msg_verdict_retained (b : B) (c : Cli) (s : Sess) (r : PubReq) (m : Msg)
     intro x t; unfold storeRetained; split
     · split <;> rfl
     · rfl
-  simp only [publishPost, hnd]
+  simp only [publishPost, hnd, dupQuota_false]
   rw [(untouched_acknowledge _ c r _).retained]
   simp only [Bool.false_eq_true, if_false, MsgVerdict.result, route]
   rw [deliverMsg_retained, hs]
@@ -226,7 +226,7 @@ theorem msg_verdict_routed (b : B) (c : Cli) (s : Sess) (r : PubReq) (m : Msg)
         acknowledge ((storeRetained b1 m).deliverMsg c.cid m r.hints r.rapHint).1 c r
           (ackCode c.v none ((storeRetained b1 m).deliverMsg c.cid m r.hints r.rapHint).2) := by
   refine ⟨b.setSess (if r.qos == 2 then { s with unack := s.unack ++ [r.pid] } else s), rfl, rfl, ?_⟩
-  simp only [publishPost, hnd]
+  simp only [publishPost, hnd, dupQuota_false]
   simp [MsgVerdict.result, route]
 
 /-- `will_verdict`: a will dropped by OnWillPublish is published to nobody and changes nothing; an edited will is
@@ -278,6 +278,11 @@ theorem publishPost_accept (b : B) (c : Cli) (s : Sess) (r : PubReq) (m : Msg)
       (let dupl := r.qos == 2 && s.unack.contains r.pid
        let s := if r.qos == 2 && !dupl then { s with unack := s.unack ++ [r.pid] } else s
        let b := b.setSess s
+       let b := if dupl && c.v == 5 then
+              (match b.cli? r.conn with
+               | some c' => b.setCli { c' with quota := min (c'.quota + 1) b.cfg.recvMax }
+               | none => b)
+            else b
        let b := if r.retain && !dupl then
               (if r.plen == 0 then { b with retained := b.retained.filter (·.1 != r.topic) }
                else { b with retained := (r.topic, m) :: b.retained.filter (·.1 != r.topic) })
@@ -297,10 +302,11 @@ theorem publishPost_accept (b : B) (c : Cli) (s : Sess) (r : PubReq) (m : Msg)
   | true =>
     have hq : r.qos = 2 := by
       simp only [Bool.and_eq_true, beq_iff_eq] at hd; exact hd.1
-    simp [route, ackCode, acknowledge, ackEmit, ackForget, ackQuota, hq]
+    simp [route, ackCode, acknowledge, ackEmit, ackForget, ackQuota, dupQuota, hq]
     split <;> first | (simp_all; done) | (simp_all; rfl) | rfl
   | false =>
-    simp only [MsgVerdict.result, route, storeRetained, h1, h2, h3, Bool.not_false, Bool.and_true, Bool.false_eq_true, if_false, if_true]
+    simp only [MsgVerdict.result, route, storeRetained, dupQuota_false, h1, h2, h3, Bool.not_false, Bool.and_true, Bool.false_and,
+      Bool.false_eq_true, if_false, if_true]
     generalize hdm : (B.deliverMsg _ c.cid m r.hints r.rapHint) = dm
     obtain ⟨bd, matched⟩ := dm
     simp only [ackCode, acknowledge, ackEmit, ackForget, ackQuota]
@@ -313,6 +319,11 @@ def brokerPublishTail (b : B) (c : Cli) (s : Sess) (r : PubReq) : B :=
   let dupl := r.qos == 2 && s.unack.contains r.pid
   let s := if r.qos == 2 && !dupl then { s with unack := s.unack ++ [r.pid] } else s
   let b := b.setSess s
+  let b := if dupl && c.v == 5 then
+      (match b.cli? r.conn with
+       | some c' => b.setCli { c' with quota := min (c'.quota + 1) b.cfg.recvMax }
+       | none => b)
+    else b
   let b := if r.retain && !dupl then
       (if r.plen == 0 then { b with retained := b.retained.filter (·.1 != r.topic) }
        else { b with retained := (r.topic, m) :: b.retained.filter (·.1 != r.topic) })
@@ -368,6 +379,13 @@ example : (publishH (.rewrite exRewrite) .keep exB exReq).msgs.map (fun m => (m.
 example : (closeH .keep exB "p").msgs.map (fun m => (m.topic, m.tag)) = [("w/1", "W")] ∧
     (closeH (.rewrite exRewrite) exB "p").msgs.map (fun m => (m.topic, m.tag)) = [("z/9", "m9")] ∧
     (closeH .drop exB "p").msgs = [] := by decide
+/-- a will with RETAIN: the retained store holds the will as the hook left it — replaced payload, RETAIN cleared, dropped -/
+example :
+    let b := exB.connect { conn := "q", cid := "qx", v := 5, will := some ({ topic := "w/2", tag := "W2", plen := 2, qos := 1, retained := true }, 0) }
+    (closeH .keep b "q").retained.map (fun tm => (tm.1, tm.2.tag)) = [("w/2", "W2")] ∧
+    (closeH (.rewrite (fun m => { m with tag := "m7" })) b "q").retained.map (fun tm => (tm.1, tm.2.tag)) = [("w/2", "m7")] ∧
+    (closeH (.rewrite (fun m => { m with retained := false })) b "q").retained = [] ∧
+    (closeH .drop b "q").retained = [] := by decide
 /-- per-topic verdicts: `t/2` rejected with 0x87, `t/3` granted QoS 0 instead of 2 -/
 example :
     let rej := fun n => if n == "t/2" then some 135 else none
